@@ -89,6 +89,21 @@ CHECKS = {
    text="TLC checks FIFO order and Remaining = unread length over all operation sequences <= 5 on either handle. Every sequence of <= 3 (thorough 4) operations over {Write, Read, Reset via either handle, Close, RemainingBytes} on empty and pre-filled buffers (NewBufferTransport and NewDefaultTransport(*bytes.Buffer)) plus random longer ones is executed; after each step both handles must show the model state. Generic transport: ReadableLen values incl. 0, negatives and absent method; registry: registered/unregistered callbacks, argument identity, result pass-through, the specific error.",
    note="Trusted: TLC, projections of bytes.Buffer (Len/Bytes) and RemainingBytes. Thin use of the technique (the model has one variable); kept because aliasing is a history property.",
    design="6 C19"),
+ "C14": dict(
+   technique="TLA+ model of pooled-object / span-lock interleavings (Concurrency) checked by TLC + validation of the acquisition log of a concurrent stress driver; race detector as monitor",
+   text="TLC explores every interleaving of 3 goroutines over pooled objects and the span allocator's CAS-lock/bump/slice steps: exclusive ownership, reset on recycle, disjoint span regions, map never written (and finds the violation when fields are not cleared before Put). A stress driver (8..24 goroutines; cycles of BufferReader, BufferWriter, the three skip decoders, ttheader and Base codecs with the span allocator on, concurrent Get on a shared map; self-checking payloads tagged per goroutine, poisoning pool double) logs every acquisition/release under one mutex; TLC validates the log as Acquire/Release actions (no object in two hands) and every self-check. The same driver built with -race against the real mcache runs for several seeds.",
+   note="Trusted: TLC, the conservative log order (acquire logged after Get, release before Put), Go's race detector. TLA+ cannot see the Go memory model: the 'no data race' clause is decided by the race detector on spec-driven executions (category other would also fit; model_checking describes the ownership part). Not deterministic: confirmation re-runs 20 copies.",
+   design="6 C14, 10"),
+ "C16": dict(
+   technique="TLA+ region/span-allocator model (MemViews) checked by TLC + TLC-judged region traces of real decode runs",
+   text="TLC checks that span regions are pairwise disjoint, in bounds and cap = len across request runs that wrap the span. Real decode runs (strings/binaries of every span class, long runs wrapping the 1 MiB span, buffer and stream readers, SetSpanCache on/off) record each result's memory region; TLC requires disjointness from the input and from every other result (over [addr, addr+cap)), cap = len for span results; the harness overwrites the input and appends to/modifies every returned slice and TLC requires all other results and the input intact; values must be identical with the span cache on and off.",
+   note="Trusted: TLC, address projection (cluster, offset, len, cap) and content comparison in the harness.",
+   design="6 C16"),
+ "C20": dict(
+   technique="TLA+ alias machine (MemViews) checked by TLC + TLC-judged conversion/append traces",
+   text="TLC explores conversion/append histories over all input shapes and shows no write can land in string memory when cap = len (and finds the violation for a design that keeps the backing array's capacity). Real conversions for every shape (whole, substring, spare capacity, empty, nil) x lengths x append histories are judged: length/content preserved, shared pointer, cap = len, appends never in place.",
+   note="Trusted: TLC, pointer/len/cap projection via unsafe.SliceData/StringData. Thin use of the technique (one-step functions); the reason the property matters is a history property of the alias machine.",
+   design="6 C20"),
 }
 NOT_YET = "check not built yet in this revision of /verif (work in progress; see DESIGN.md section 6 for the plan)"
 
